@@ -99,9 +99,22 @@ def _make_table(kind, items):
     return dict(items)
 
 
+def _edit_returned(ret):
+    """Whatever a setter hands back is an object the caller may edit (the specification's setter returns nothing)."""
+    if isinstance(ret, dict):
+        ret.pop("?", None)
+        ret["C"] = 0
+        ret["Zz"] = 1
+    elif isinstance(ret, set):
+        ret.add("[junk]")
+        ret.discard("[C]")
+    elif isinstance(ret, list):
+        ret.append("[junk]")
+
+
 def replay_history(sf, hist, customs, dprobes, eprobes, kind=0):
     """Replays one specification history into the library; returns (step index, message, via_set_mutation) or None."""
-    sf.set_semantic_constraints("default")
+    _edit_returned(sf.set_semantic_constraints("default"))
     objs = {}
     set_mutated = False
     for n, h in enumerate(hist):
@@ -109,7 +122,7 @@ def replay_history(sf, hist, customs, dprobes, eprobes, kind=0):
         try:
             if op == "set_preset":
                 try:
-                    sf.set_semantic_constraints(arg)
+                    _edit_returned(sf.set_semantic_constraints(arg))
                     got = "None"
                 except ValueError:
                     got = "ValueError"
@@ -119,7 +132,7 @@ def replay_history(sf, hist, customs, dprobes, eprobes, kind=0):
                 objs[arg[1]] = _make_table(kind, customs[arg[0] - 1][1])
             elif op == "set_custom":
                 try:
-                    sf.set_semantic_constraints(objs[arg])
+                    _edit_returned(sf.set_semantic_constraints(objs[arg]))
                     got = "None"
                 except ValueError:
                     got = "ValueError"
@@ -329,8 +342,44 @@ def api_check(pid, tier, invariants, ops_note):
     return rep
 
 
+def random_histories(rep, quick, rng, config_side):
+    """Long random API histories, each in a fresh interpreter (api_driver.py); translations, presets and alphabets
+    are compared with a second, clean interpreter.  config_side: report the configuration-API divergences (C12)
+    instead of the translation ones (C11)."""
+    script = os.path.join(VERIF, "harness", "api_driver.py")
+    n_hist = 6 if quick else 40
+    jobs = []
+    for k in range(n_hist):
+        jobs.append((rng.randrange(1 << 30), 60 if quick else 150))
+    env = dict(os.environ)
+
+    def run(job):
+        sd, ln = job
+        p = subprocess.run([sys.executable, script, str(sd), str(ln)], stdout=subprocess.PIPE, stderr=subprocess.PIPE,
+                           env=env, timeout=1800)
+        return p.returncode, p.stdout.decode(), p.stderr.decode()
+    for (rc, out, err), job in zip(run_parallel([lambda j=j: run(j) for j in jobs]), jobs):
+        if rc not in (0, 1):
+            raise MachineryError("api_driver failed: %s" % err[-1500:])
+        for line in out.split("\n"):
+            if line.startswith("STEPS"):
+                rep.traces += int(line.split()[1])
+            if line.startswith("DIVERGE"):
+                info = json.loads(line[8:])
+                f = [x for x in rep.findings if x.get("signature") == "api:mutation-of-returned-robust-alphabet-visible-to-later-calls"]
+                is_config = info.get("what") in ("alphabet", "accepted", "state", "preset")
+                if is_config != config_side:
+                    continue            # the other property's business
+                if info.get("what") == "alphabet" and info.get("after_set_mutation") and f:
+                    rep.known(f[0]["id"], f[0]["what"][:300])
+                    continue
+                rep.violation("random API history (seed %d): %s" % (job[0], info.get("message")), info)
+    rep.notes["random_histories"] = n_hist
+
+
 def check_C12(tier):
     rep = api_check("C12", tier, API_INVARIANTS, "")
+    random_histories(rep, tier == "quick", random.Random(seed() * 17 + 12), config_side=True)
     # rejection reasons that a TLA+ table cannot carry: wrong types
     sf = de.selfies_mod()
     bad_args = [None, 5, 3.5, ["C"], ("default",), {"C": "4", "?": 8}, {"C": None, "?": 8}, {"?": 8.0}, "no_such", b"default",
@@ -367,35 +416,8 @@ def check_C12(tier):
 def check_C11(tier):
     rep = api_check("C11", tier, API_INVARIANTS, "")
     quick = tier == "quick"
-    # long random histories with realistic tables, each translation compared with a fresh interpreter
     rng = random.Random(seed() * 13 + 11)
-    script = os.path.join(VERIF, "harness", "api_driver.py")
-    n_hist = 6 if quick else 40
-    jobs = []
-    for k in range(n_hist):
-        jobs.append((rng.randrange(1 << 30), 60 if quick else 150))
-    outs = []
-    env = dict(os.environ)
-
-    def run(job):
-        sd, ln = job
-        p = subprocess.run([sys.executable, script, str(sd), str(ln)], stdout=subprocess.PIPE, stderr=subprocess.PIPE,
-                           env=env, timeout=1800)
-        return p.returncode, p.stdout.decode(), p.stderr.decode()
-    for (rc, out, err), job in zip(run_parallel([lambda j=j: run(j) for j in jobs]), jobs):
-        if rc not in (0, 1):
-            raise MachineryError("api_driver failed: %s" % err[-1500:])
-        for line in out.split("\n"):
-            if line.startswith("STEPS"):
-                rep.traces += int(line.split()[1])
-            if line.startswith("DIVERGE"):
-                info = json.loads(line[8:])
-                f = [x for x in rep.findings if x.get("signature") == "api:mutation-of-returned-robust-alphabet-visible-to-later-calls"]
-                if info.get("what") in ("alphabet", "accepted", "state"):
-                    continue            # configuration API: C12's business
-                else:
-                    rep.violation("random API history (seed %d): %s" % (job[0], info.get("message")), info)
-    rep.notes["random_histories"] = n_hist
+    random_histories(rep, quick, rng, config_side=False)
     # purity across table switches and repetition, on the broad alphabets: every vector is decoded under its table,
     # the table is switched away and back, other inputs are decoded in between, and the result must be the same
     import checks_dec
